@@ -3,6 +3,7 @@ CONSTANTS
   Budget = 4
   Enabled = {"Name", "Attribute", "Call", "Subscript", "Tuple", "Expr", "Assign", "AnnAssign", "AugAssign", "Lambda", "Compare", "UnaryOp", "TypeAlias", "Module", "Expression", "BinOp"}
   NameSet = {"a", "match", "case", "type"}
+  ExtraParens = FALSE
   Emit = TRUE
 SPECIFICATION Spec
 INVARIANTS EmitOK
